@@ -17,13 +17,14 @@ def choiceColsOf (wb : Workbook) : List Str := wb.choiceCols.filterMap fun h => 
 
 /-- What a successful `convertDoc` computed about the choices sheet: the canonical, cleaned rows `ch`, which
     passed `validate_choice_list`, and the document as `Asm.assemble` with the static instances of
-    `choicesOf … ch` first among the model children after the primary instance. -/
+    `choicesOf … ch` (after the `or_other` selects of the canonical survey rows `rows` appended `other` to their
+    lists) first among the model children after the primary instance. -/
 theorem convertDoc_choices (wb : Workbook) (doc : Node) (h : convertDoc wb = .ok doc) :
-    ∃ ch f rk root tops pre ds body, canonChoices wb.choices = some ch ∧
+    ∃ ch f rk rows els pc ds body, canonChoices wb.choices = some ch ∧
       Choices.validateLists false (Choices.groupByKey Choices.listKey ch) = none ∧
       doc = assemble f none rk
-        ((Choices.staticInsts [] (Choices.choicesOf (choiceColsOf wb) ch)).map Choices.instNode ++
-          bindNodesL root tops pre ds) body := by
+        ((Choices.staticInsts [] (othersApplied rows (Choices.choicesOf (choiceColsOf wb) ch))).map Choices.instNode ++
+          bindNodesL els pc ds) body := by
   unfold convertDoc at h
   split at h
   · simp at h
@@ -65,9 +66,11 @@ theorem convertDoc_choices (wb : Workbook) (doc : Node) (h : convertDoc wb = .ok
                               · split at h
                                 · simp at h
                                 · split at h
-                                  · simp only [Except.ok.injEq] at h
-                                    exact ⟨ch, f, _, _, _, _, _, _, hch, hval, h.symm⟩
                                   · simp at h
+                                  · split at h
+                                    · simp only [Except.ok.injEq] at h
+                                      exact ⟨ch, f, _, _, _, _, _, _, hch, hval, h.symm⟩
+                                    · simp at h
 
 
 /-! ## the `<instance id=…>` children of the model -/
@@ -77,25 +80,127 @@ theorem instanceId_pyNode_ne (t : Str) (a : List (Str × Str)) (ks : List Node) 
     instanceId (pyNode t a ks) = none := by
   simp [pyNode, instanceId, h]
 
+theorem dynSetOf_noId (els : List Refs.Chain) (ctx : Refs.Chain) (r : Cells) (b : Bool) :
+    (dynSetOf els ctx r b).filterMap Choices.instanceId = [] := by
+  unfold dynSetOf
+  split
+  · split
+    · simp [setvalueNode, instanceId_pyNode_ne _ _ _ (by decide : (l!"setvalue") ≠ c!"instance")]
+    · rfl
+  · rfl
+
 mutual
-theorem bindNodes_noId (root : Str) (tops : List Str) : ∀ (pre : List Str) (d : DItem),
-    (bindNodes root tops pre d).filterMap Choices.instanceId = []
-  | pre, .q d p => by
-    simp only [bindNodes]
+theorem bindNodes_noId (els : List Refs.Chain) : ∀ (pc : Refs.Chain) (d : DItem),
+    (bindNodes els pc d).filterMap Choices.instanceId = []
+  | pc, .q d p => by
+    have h2 : (if inRep pc = true then [] else dynSetOf els (pc ++ [(d.name, .q)]) p.cells false).filterMap
+        Choices.instanceId = [] := by
+      split
+      · rfl
+      · exact dynSetOf_noId ..
+    simp only [bindNodes, List.filterMap_append, h2, List.append_nil]
     split
     · simp [bindNode, instanceId_pyNode_ne _ _ _ (by decide : (l!"bind") ≠ c!"instance")]
     · rfl
-  | pre, .sec _ n b p ks => by
-    simp only [bindNodes, List.filterMap_append, bindNodesL_noId root tops (pre ++ [n]) ks, List.append_nil]
+  | pc, .sec ct n b p ks => by
+    simp only [bindNodes, List.filterMap_append, bindNodesL_noId els (pc ++ [(n, kindOf ct)]) ks, List.append_nil]
     split
     · simp [bindNode, instanceId_pyNode_ne _ _ _ (by decide : (l!"bind") ≠ c!"instance")]
     · rfl
-theorem bindNodesL_noId (root : Str) (tops : List Str) : ∀ (pre : List Str) (ds : List DItem),
-    (bindNodesL root tops pre ds).filterMap Choices.instanceId = []
+theorem bindNodesL_noId (els : List Refs.Chain) : ∀ (pc : Refs.Chain) (ds : List DItem),
+    (bindNodesL els pc ds).filterMap Choices.instanceId = []
   | _, [] => rfl
-  | pre, k :: ks => by
-    simp only [bindNodesL, List.filterMap_append, bindNodes_noId root tops pre k, bindNodesL_noId root tops pre ks, List.append_nil]
+  | pc, k :: ks => by
+    simp only [bindNodesL, List.filterMap_append, bindNodes_noId els pc k, bindNodesL_noId els pc ks, List.append_nil]
 end
+
+/-! ### `or_other`: the choice `other` appended to a list (never a new or renamed list) -/
+
+open Pyxv.Choices in
+theorem addOtherTo_idem (cs : List Choice) : addOtherTo (addOtherTo cs) = addOtherTo cs := by
+  unfold addOtherTo
+  by_cases h : hasOther cs = true
+  · simp [h]
+  · have h2 : hasOther (cs ++ [otherChoice (cs.any fun c => isDictLbl c.label)]) = true := by
+      simp [hasOther, otherChoice]
+    simp only [h, Bool.false_eq_true, if_false, h2, if_true]
+
+open Pyxv.Choices in
+/-- a list is its sheet version, or that with `other` appended -/
+def OtherRel (cs cs' : List Choice) : Prop := cs' = cs ∨ cs' = addOtherTo cs
+
+open Pyxv.Choices in
+theorem addOther_keys (l : Str) : ∀ lists : List (Str × List Choice), (addOther l lists).map (·.1) = lists.map (·.1)
+  | [] => rfl
+  | (k, cs) :: rest => by
+    unfold addOther
+    split
+    · rfl
+    · simp [addOther_keys l rest]
+
+open Pyxv.Choices in
+theorem addOther_mem (l : Str) : ∀ (lists : List (Str × List Choice)) (k : Str) (cs' : List Choice),
+    (k, cs') ∈ addOther l lists → ∃ cs, (k, cs) ∈ lists ∧ OtherRel cs cs'
+  | [], _, _, h => by simp [addOther] at h
+  | (k0, cs0) :: rest, k, cs', h => by
+    unfold addOther at h
+    split at h
+    · simp only [List.mem_cons, Prod.mk.injEq] at h
+      rcases h with ⟨rfl, rfl⟩ | h
+      · exact ⟨cs0, by simp, Or.inr rfl⟩
+      · exact ⟨cs', by simp [h], Or.inl rfl⟩
+    · simp only [List.mem_cons, Prod.mk.injEq] at h
+      rcases h with ⟨rfl, rfl⟩ | h
+      · exact ⟨cs', by simp, Or.inl rfl⟩
+      · obtain ⟨cs, hm, hr⟩ := addOther_mem l rest k cs' h
+        exact ⟨cs, by simp [hm], hr⟩
+
+open Pyxv.Choices in
+theorem othersApplied_keys : ∀ (rows : List Cells) (lists : List (Str × List Choice)),
+    (othersApplied rows lists).map (·.1) = lists.map (·.1)
+  | [], _ => rfl
+  | r :: rs, lists => by
+    unfold othersApplied
+    rw [othersApplied_keys rs]
+    split
+    · split
+      · exact addOther_keys _ _
+      · rfl
+    · rfl
+
+open Pyxv.Choices in
+theorem othersApplied_mem : ∀ (rows : List Cells) (lists : List (Str × List Choice)) (k : Str) (cs' : List Choice),
+    (k, cs') ∈ othersApplied rows lists → ∃ cs, (k, cs) ∈ lists ∧ OtherRel cs cs'
+  | [], _, _, cs', h => ⟨cs', h, Or.inl rfl⟩
+  | r :: rs, lists, k, cs', h => by
+    unfold othersApplied at h
+    obtain ⟨cs1, hm1, hr1⟩ := othersApplied_mem rs _ k cs' h
+    split at hm1
+    · split at hm1
+      · obtain ⟨cs, hm, hr⟩ := addOther_mem _ _ _ _ hm1
+        refine ⟨cs, hm, ?_⟩
+        rcases hr with rfl | rfl
+        · exact hr1
+        · rcases hr1 with rfl | rfl
+          · exact Or.inr rfl
+          · exact Or.inr (addOtherTo_idem cs)
+      · exact ⟨cs1, hm1, hr1⟩
+    · exact ⟨cs1, hm1, hr1⟩
+
+theorem lookup_of_nodup_mem {β} (l : Str) (v : β) : ∀ (d : List (Str × β)), (d.map (·.1)).Nodup → (l, v) ∈ d →
+    lookup l d = some v
+  | [], _, h => by simp at h
+  | (k, w) :: rest, hn, h => by
+    simp only [List.map_cons, List.nodup_cons] at hn
+    simp only [List.mem_cons, Prod.mk.injEq] at h
+    by_cases hk : l = k
+    · subst hk
+      rcases h with ⟨-, rfl⟩ | h
+      · simp [lookup]
+      · exact absurd (List.mem_map.mpr ⟨(l, v), h, rfl⟩) hn.1
+    · rcases h with ⟨rfl, -⟩ | h
+      · exact absurd rfl hk
+      · simp only [lookup, hk, if_false]; exact lookup_of_nodup_mem l v rest hn.2 h
 
 /-- ids of the secondary instances of a document, in document order -/
 def secondaryIds (doc : Node) : List Str := (modelKidsOf doc).filterMap Choices.instanceId
@@ -152,39 +257,46 @@ open Pyxv.Choices in
 /-- **C09 for the whole conversion.**  For every workbook the composed model converts: the `<instance id=…>`
     children of the document's `<model>` are, in document order, the lists of the (canonical, cleaned) choices
     sheet in the order of their first occurrence, pairwise distinct; and for every such list `l` the element
-    `instNode (staticInst l cs)` is a child of the model, where `cs` are the sheet's rows naming `l`, in sheet
-    order, read by `choiceOf` — with one `<item>` per choice, item `i` being `itemOf` of choice `i`.
+    `instNode (staticInst l cs')` is a child of the model, where `cs'` is `cs` — the sheet's rows naming `l`, in
+    sheet order, read by `choiceOf` — or `cs` with the choice `other` appended (`addOtherTo`, when an `or_other`
+    select uses the list), with one `<item>` per choice, item `i` being `itemOf` of choice `i`.
     From `group_keys_order`, `group_keys_nodup`, `choices_of_list`, `instance_items`. -/
 theorem convert_c09 (wb : Workbook) (doc : Node) (h : convertDoc wb = .ok doc) :
     ∃ ch, canonChoices wb.choices = some ch ∧
       secondaryIds doc = Spec.listNames listKey ch ∧ (secondaryIds doc).Nodup ∧
       ∀ l ∈ Spec.listNames listKey ch,
-        ∃ cs, cs = (Spec.listRows listKey l ch).map (choiceOf (badHeaders (choiceColsOf wb))) ∧
-          Choices.instNode (staticInst l cs) ∈ modelKidsOf doc ∧
-          (staticInst l cs).items.length = cs.length ∧
-          ∀ i, (staticInst l cs).items[i]? = cs[i]?.map (itemOf (requiresItext cs) l i) := by
-  obtain ⟨ch, f, rk, root, tops, pre, ds, body, hch, _, hdoc⟩ := convertDoc_choices wb doc h
+        ∃ cs cs', cs = (Spec.listRows listKey l ch).map (choiceOf (badHeaders (choiceColsOf wb))) ∧
+          OtherRel cs cs' ∧
+          Choices.instNode (staticInst l cs') ∈ modelKidsOf doc ∧
+          (staticInst l cs').items.length = cs'.length ∧
+          ∀ i, (staticInst l cs').items[i]? = cs'[i]?.map (itemOf (requiresItext cs') l i) := by
+  obtain ⟨ch, f, rk, rows, els, pc, ds, body, hch, _, hdoc⟩ := convertDoc_choices wb doc h
   have hids : secondaryIds doc = Spec.listNames listKey ch := by
     rw [secondaryIds, hdoc, modelKidsOf_assemble, modelKids_ids, List.filterMap_append, bindNodesL_noId,
-      List.append_nil, ids_instNodes, staticInsts_nil_names, choicesOf_keys, C09.group_keys_order]
+      List.append_nil, ids_instNodes, staticInsts_nil_names, othersApplied_keys, choicesOf_keys, C09.group_keys_order]
   refine ⟨ch, hch, hids, ?_, ?_⟩
   · rw [hids, ← C09.group_keys_order]; exact C09.group_keys_nodup _ _
   · intro l hl
-    have hk : l ∈ (choicesOf (choiceColsOf wb) ch).map (·.1) := by
-      rw [choicesOf_keys, C09.group_keys_order]; exact hl
-    obtain ⟨cs, hcs⟩ := lookup_of_mem_keys l _ hk
+    have hk : l ∈ (othersApplied rows (choicesOf (choiceColsOf wb) ch)).map (·.1) := by
+      rw [othersApplied_keys, choicesOf_keys, C09.group_keys_order]; exact hl
+    obtain ⟨cs', hcs'⟩ := lookup_of_mem_keys l _ hk
+    have hmem' : (l, cs') ∈ othersApplied rows (choicesOf (choiceColsOf wb) ch) := lookup_mem l cs' _ hcs'
+    obtain ⟨cs, hmem, hrel⟩ := othersApplied_mem rows _ l cs' hmem'
+    have hnd : ((choicesOf (choiceColsOf wb) ch).map (·.1)).Nodup := by
+      rw [choicesOf_keys]; exact C09.group_keys_nodup _ _
+    have hcs := lookup_of_nodup_mem l cs _ hnd hmem
     have hcl := C09.choices_of_list (choiceColsOf wb) l ch
     rw [hcs] at hcl
     simp only [Option.getD_some] at hcl
-    refine ⟨cs, hcl, ?_, (C09.instance_items l cs).1, (C09.instance_items l cs).2⟩
+    refine ⟨cs, cs', hcl, hrel, ?_, (C09.instance_items l cs').1, (C09.instance_items l cs').2⟩
     rw [hdoc, modelKidsOf_assemble]
     unfold Asm.modelKids
-    have hmem : (l, cs) ∈ choicesOf (choiceColsOf wb) ch := lookup_mem l cs _ hcs
-    have : Choices.instNode (staticInst l cs) ∈ (staticInsts [] (choicesOf (choiceColsOf wb) ch)).map Choices.instNode := by
+    have : Choices.instNode (staticInst l cs') ∈
+        (staticInsts [] (othersApplied rows (choicesOf (choiceColsOf wb) ch))).map Choices.instNode := by
       apply List.mem_map.mpr
-      refine ⟨staticInst l cs, ?_, rfl⟩
+      refine ⟨staticInst l cs', ?_, rfl⟩
       simp only [staticInsts, List.mem_map, List.mem_filter]
-      exact ⟨(l, cs), ⟨hmem, by simp⟩, rfl⟩
+      exact ⟨(l, cs'), ⟨hmem', by simp⟩, rfl⟩
     simp only [List.mem_append, List.mem_cons]
     exact Or.inr (Or.inr (Or.inl this))
 
@@ -260,7 +372,7 @@ theorem convert_document_ids (wb : Workbook) (text : Str) (h : convert wb false 
   have hparse := render_parses_compact_lax doc hwf helem
   have hE : secondaryIds (eproj (expectedLax doc)) = (Spec.listNames listKey ch).map normAttrVal := by
     rw [← hids, eproj_expectedLax, secondaryIds, secondaryIds]
-    obtain ⟨ch', f', rk, root, tops, pre, ds, body, -, -, hdoc⟩ := convertDoc_choices wb doc hd
+    obtain ⟨ch', f', rk, rows', els, pc, ds, body, -, -, hdoc⟩ := convertDoc_choices wb doc hd
     rw [hdoc, modelKidsOf_parsed, ids_normAttrsKids, ids_eprojKids, modelKidsOf_assemble]
   refine ⟨ch, _, hch, hparse, hE, ?_⟩
   intro hws
